@@ -43,7 +43,7 @@ def main():
     out.append("")
     out.append("Each change was written by a fresh sub-agent that saw only the property text and a scratch worktree; each was confirmed "
                "(patch applies, pinned suite still 122 passed, demo fails with / passes without the change) before being kept under "
-               "`seeded/<name>/`. `-s*` … `-x*` = rounds 1 … 6 (from round 2 on each seeder was told which code sites earlier rounds had used; rounds 3–4 asked for state, defaults, aliasing and scale corner cases; round 6 asked for changes in SUPPORTING code only); `*-revert-*` = the reverse patch of a `fix:` commit; `retired` = a later repair of /repo made the change harmless (its own demo passes with it).")
+               "`seeded/<name>/`. `-s*` … `-z*` = rounds 1 … 8, `-q*` = round 9 (from round 2 on each seeder was told which code sites earlier rounds had used; rounds 3–4 asked for state, defaults, aliasing and scale corner cases; round 6 asked for changes in SUPPORTING code only; round 7 for follow-up clean-ups of the repairs and multi-step sequences; round 8 for performance optimisations and two cooperating edits; round 9 for added leniency and numpy-2 / API modernisation patches); `*-revert-*` = the reverse patch of a `fix:` commit; `retired` = a later repair of /repo made the change harmless (its own demo passes with it).")
     out.append("")
     out.append("| change | property | outcome of `./check <property>` (quick tier) on the patched tree | reported |")
     out.append("|---|---|---|---|")
